@@ -20,7 +20,7 @@ from .. import core, plants, result_common as R, elec_common as E, mech_common a
 from ..core import enc, dec, close, call_with_oracle
 from feems.system_model import HybridPropulsionSystem, ElectricPowerSystem, MechanicalPropulsionSystem
 
-THEOREMS = ["final_with_second_pass", "final_without_second_pass", "electric_consistency", "shaft_consistency", "balances_within",
+THEOREMS = ["final_with_second_pass", "final_with_rebalance", "balancing_consistent", "balancing_legacy_gap", "final_without_second_pass", "electric_consistency", "shaft_consistency", "balances_within",
             "loss_pair", "full_pti", "same_machine"]
 DEPENDS_ON_MODULES = ["FeemsProofs.C06"]
 BAL = E.STORAGE_KINDS + ("pti_pto",)
@@ -44,6 +44,9 @@ def run_case(ctx, case, model=True):
     mi = R.mech_inputs(case)
     any_full = any(any(mi["comp"][p["name"]]["full"]) for p in ptis)
     ctx.count("second_electric_pass", any_full)
+    # the shaft lines are balanced once more when a second electric pass ran and some PTI/PTO shares the bus load
+    rebalance = any_full and any(any(m == 0 for m in R.elec_inputs(case)["comp"][p["name"]]["mode"]) for p in ptis)
+    ctx.count("second_shaft_pass", rebalance)
     for p in ptis:
         obj = plant.by_name[p["name"]]
         rated = p["rated"]
@@ -52,9 +55,10 @@ def run_case(ctx, case, model=True):
         for t in range(n):
             full = bool(mi["comp"][p["name"]]["full"][t])
             shaft_given = mi["comp"][p["name"]]["shaft"][t]
+            balancing = p["name"] in case.get("balancing_pti", [])
             ein, sout = float(eobs[p["name"]]["in"][t]), float(mobs[p["name"]]["out"][t])
             L = sum(mobs[c["name"]]["in"][t] for c in M.by_line(spec, ln, "mech_load"))
-            ctx.count("step_kind", "full-pti" if full else ("pti" if shaft_given > 0 else ("pto" if shaft_given < 0 else "idle")))
+            ctx.count("step_kind", "balancing" if balancing else ("full-pti" if full else ("pti" if shaft_given > 0 else ("pto" if shaft_given < 0 else "idle"))))
             if full and abs(L) > 0.98 * rated:
                 ctx.count("skipped_step", "load-above-pti-rating")
                 continue
@@ -66,10 +70,21 @@ def run_case(ctx, case, model=True):
             ei = R.elec_inputs(case)
             cap = sum(c["rated"] for c in members if c["kind"] in E.SOURCE_KINDS and ei["comp"][c["name"]]["status"][t] and ei["comp"][c["name"]]["share"][t] == 0)
             cap += sum(c["rated"] for c in members if c["kind"] in BAL and ei["comp"][c["name"]]["status"][t] and ei["comp"][c["name"]]["mode"][t] == 0)
+            # load fraction the bus asks of its balancing units (sources with share 0, storage and PTI/PTO in mode 0)
+            is_bal = lambda c: (c["kind"] in E.SOURCE_KINDS + BAL and ei["comp"][c["name"]]["status"][t] and ((c["kind"] in E.SOURCE_KINDS and ei["comp"][c["name"]]["share"][t] == 0)
+                                                                        or (c["kind"] in BAL and ei["comp"][c["name"]]["mode"][t] == 0)))
+            need = sum(eobs[c["name"]]["in"][t] for c in members if c["kind"] not in E.SOURCE_KINDS and not is_bal(c)) \
+                - sum(eobs[c["name"]]["out"][t] for c in members if c["kind"] in E.SOURCE_KINDS and not is_bal(c))
+            over = [c["name"] for c in members if c["name"] in case.get("balancing_pti", []) and cap > 0 and abs(need / cap) > 0.98]
             if cap == 0:
                 ctx.count("skipped_step", "bus-without-balancing-capacity")
+            elif over:
+                ctx.count("skipped_step", "bus-asks-a-balancing-pti-above-its-rating")
             elif abs(delivered - drawn) > eps:
                 ctx.fail("predicate", "electric-balance-with-pti-over-0.5pct", f"step {t}: bus {sorted(g)} delivered {delivered} drawn {drawn} (PTI/PTO rated {rated})", where)
+            if balancing and (p["name"] in over or max(abs(ein), abs(sout)) > 0.98 * rated):
+                ctx.count("skipped_step", "balancing-share-above-pti-rating")       # the bus asks more of it than its rating
+                continue
             # shaft balance with its *final* shaft power
             eng = sum(mobs[c["name"]]["out"][t] for c in M.by_line(spec, ln, "main_engine"))
             avail = sum(c["rated"] for c in M.by_line(spec, ln, "main_engine") if mi["comp"][c["name"]]["status"][t])
@@ -85,14 +100,14 @@ def run_case(ctx, case, model=True):
                 if abs(sout - L) > eps or abs(ein - L / eff) > eps:
                     ctx.fail("predicate", "full-pti-not-load-plus-loss", f"step {t}: load {L}, shaft {sout}, electrical {ein}, load/eff {L / eff}", where)
             # ---- correspondence
-            if model and ctx.model_available:
+            if model and ctx.model_available and not balancing:
                 x0 = float(obj.get_power_input_from_bidirectional_output(float(shaft_given))[0])      # what the harness set
 
                 def oracle(name, key, obj=obj):
                     if name == "f":
                         return float(obj.get_power_input_from_bidirectional_output(float(key))[0])
                     return float(obj.get_power_output_from_bidirectional_input(float(key))[0])
-                args = dict(f=[], g=[], x0=enc(x0), load=enc(L), full=full, any_full=any_full)
+                args = dict(f=[], g=[], x0=enc(x0), load=enc(L), full=full, any_full=any_full, rebalance=rebalance)
                 # tables travel as f / g, not under "curves"
                 tables = {"f": [], "g": []}
                 for _ in range(6):
@@ -107,7 +122,41 @@ def run_case(ctx, case, model=True):
                     continue
                 if not close(dec(ans["elec_in"]), ein, scale=rated) or not close(dec(ans["shaft_out"]), sout, scale=rated):
                     ctx.fail("correspondence", "pti-final-state", f"step {t} full={full} anyFull={any_full}: model ({float(dec(ans['elec_in']))}, {float(dec(ans['shaft_out']))}) impl ({ein}, {sout})", where)
+            elif model and ctx.model_available and cap > 0 and not over and [c["name"] for c in members if c["kind"] == "pti_pto"] == [p["name"]] \
+                    and ei["comp"][p["name"]]["status"][t]:
+                # (only PTI/PTO of its bus: the final electrical power of another one differs from what the last electric
+                # pass used by that machine's round-trip error, and the share could not be recovered exactly)
+                # the share the last electric pass gave it = what the other members of the bus leave over
+                xb = delivered - (drawn - ein)
+
+                def oracle(name, key, obj=obj):
+                    if name == "f":
+                        return float(obj.get_power_input_from_bidirectional_output(float(key))[0])
+                    return float(obj.get_power_output_from_bidirectional_input(float(key))[0])
+                tables = {"f": [], "g": []}
+                for _ in range(4):
+                    ans = ctx.model.call("hybrid.step_balancing", xb=enc(xb), **tables)
+                    if "need" in ans:
+                        nm, key = ans["need"]
+                        tables[nm].append([key, enc(oracle(nm, dec(key)))])
+                        continue
+                    break
+                ctx.count("balancing_correspondence", "compared" if "need" not in ans else "oracle-rounds")
+                if "need" not in ans and (not close(dec(ans["elec_in"]), ein, tol=1e-7, scale=rated) or not close(dec(ans["shaft_out"]), sout, tol=1e-7, scale=rated)):
+                    ctx.fail("correspondence", "balancing-pti-final-state", f"step {t}: share {xb}: model ({float(dec(ans['elec_in']))}, {float(dec(ans['shaft_out']))}) impl ({ein}, {sout})", where)
     return True
+
+
+def make_balancing(rng, case):
+    """Puts some of the PTI/PTOs into load-sharing mode 0 for the whole series: their electrical power is then an output
+    of the electrical balance (they share the bus load like a source), not an input."""
+    names = []
+    for c in case["spec"]["electric"]:
+        if c["kind"] == "pti_pto" and rng.random() < 0.6:
+            case["inputs"]["comp"][c["name"]]["mode"] = [0.0] * case["inputs"]["n"]
+            case["inputs"]["mech"][c["name"]]["full"] = [False] * case["inputs"]["n"]
+            names.append(c["name"])
+    case["balancing_pti"] = names
 
 
 def run_config_case(ctx, rng, model=True):
@@ -166,10 +215,18 @@ def run(ctx):
     if CORPUS.exists():
         cases += [json.loads(p.read_text()) for p in sorted(CORPUS.glob("*.json"))]
     ncorp = len(cases)
-    cases += [R.gen_plant_case(ctx.rng, i, kind="hybrid") for i in range(ctx.n(60, 1500))]
+    for i in range(ctx.n(90, 1500)):
+        case = R.gen_plant_case(ctx.rng, i, kind="hybrid")
+        if ctx.rng.random() < 0.5:        # user-style names: the PTI/PTOs of different switchboards and shaft lines share a name
+            plants.relabel(case["spec"])
+        if ctx.rng.random() < 0.25:       # PTI/PTOs whose power the electrical balance decides (load-sharing mode 0)
+            make_balancing(ctx.rng, case)
+        cases.append(case)
     for ci, case in enumerate(cases):
         ok = run_case(ctx, case)
         mi = R.mech_inputs(case)
+        labels = [c.get("label") for c in case["spec"]["electric"] if c["kind"] == "pti_pto"]
+        ctx.count("pti_pto_names", "shared" if len(set(labels)) < len(labels) else ("single" if len(labels) == 1 else "distinct"))
         sig = (json.dumps([(c["kind"], c.get("swb"), c.get("shaft_line")) for c in case["spec"]["electric"] + case["spec"]["mechanical"]]),
                json.dumps({k: (v.get("full"), [np.sign(x) for x in v.get("shaft", [])]) for k, v in mi["comp"].items() if "full" in v}, default=float))
         ctx.case_done(signature=sig if ok else None, sample={"n": case["inputs"]["n"], "pti": [c["name"] for c in case["spec"]["electric"] if c["kind"] == "pti_pto"]} if ci in (ncorp, ncorp + 1) else None)
@@ -178,7 +235,10 @@ def run(ctx):
 
 def search(ctx):
     for i in range(600):
-        run_case(ctx, R.gen_plant_case(ctx.rng, 100_000 + i, kind="hybrid"), model=False)
+        case = R.gen_plant_case(ctx.rng, 100_000 + i, kind="hybrid")
+        if i % 2:
+            plants.relabel(case["spec"])
+        run_case(ctx, case, model=False)
         if any(f["kind"] == "predicate" and not ctx.is_known(f) for f in ctx.failures):
             return
 
